@@ -115,6 +115,70 @@ extern "C" void h_c19_traj() {
   verif_out_i64("nlines", nlines);
 }
 
+// ---- trajectory columns of an extended-Lagrangian variable: actual and extended value, both velocities, energies, applied force ----------
+struct recx { cvm::real x, xr, vf, vr, Ep, Ek, fa; };
+extern "C" void h_c19_traj_ext() {
+  int F = verif_choice("trajFrequency", 2) + 1;
+  px->set_output_prefix("c19x");
+  px->set_integration_timestep(2.0);
+  std::string conf = std::string("units real\ncolvarsTrajFrequency ") + cvm::to_str(F) + "\n"
+    "colvar {\n name d\n width 0.5\n extendedLagrangian on\n extendedFluctuation 0.25\n extendedTimeConstant 200.0\n extendedTemp 300.0\n extendedLangevinDamping 0.0\n"
+    " outputVelocity on\n outputEnergy on\n outputAppliedForce on\n distance {\n group1 { atomNumbers 1 }\n group2 { atomNumbers 2 }\n }\n}\n"
+    "harmonic {\n name h\n colvars d\n centers 1.0\n forceConstant 2.0\n outputEnergy on\n}\n";
+  int err = e2e_config(conf.c_str());
+  px->colvars->setup_output();
+  verif_reach("traj_ext");
+  const int NS = 4;
+  recx R[NS];
+  colvar *d = e2e_cv("d");
+  px->colvars->it = px->colvars->it_restart = 0;
+  for (int s = 0; s < NS; s++) {
+    cvm::real x = verif_sym_double(XS[s]); verif_assume(x > 0.25 && x < 8.0);
+    e2e_pos(0, 0.0, 0.0, 0.0); e2e_pos(1, x, 0.0, 0.0);
+    for (int i = 0; i < 2; i++) px->atoms_new_colvar_forces[i] = cvm::rvector(0.0, 0.0, 0.0);
+    px->colvars->it = s;
+    err |= px->colvars->calc();
+    R[s].x = d->x.real_value; R[s].xr = d->x_reported.real_value; R[s].vf = d->v_fdiff.real_value; R[s].vr = d->v_reported.real_value;
+    R[s].Ep = d->potential_energy; R[s].Ek = d->kinetic_energy; R[s].fa = d->applied_force().real_value;
+    // the actual value is the distance; from the second step on the finite-difference velocity is its increment over the time step
+    verif_assert_eq(R[s].x, x, "traj_ext.actual_value_is_the_distance");
+    if (s > 0) verif_assert_eq(R[s].vf * 2.0, R[s].x - R[s-1].x, "traj_ext.fdiff_velocity_definition");
+  }
+  verif_assert(err == COLVARS_OK, "traj_ext.no_error");
+  px->close_output_streams();
+  std::ifstream is("c19x.colvars.traj");
+  verif_assert(is.is_open(), "traj_ext.file_exists");
+  std::string line; std::vector<std::string> labels; int nlines = 0;
+  while (std::getline(is, line)) {
+    if (line.size() == 0) continue;
+    if (line[0] == '#') { labels.clear(); parse_labels(line, labels); continue; }
+    std::vector<field> f;
+    verif_assert(parse_fields(line, f), "traj_ext.line_parses");
+    verif_assert(f.size() == labels.size() && labels.size() == 9, "traj_ext.columns_match_labels");
+    if (f.size() != labels.size()) break;
+    long st = (long) f[0].v[0];
+    verif_assert(labels[0] == "step" && st >= 0 && st < NS && (st % F) == 0, "traj_ext.step_is_multiple");
+    if (!(st >= 0 && st < NS)) break;
+    nlines++;
+    recx const &c = R[st];
+    int seen = 0;
+    for (size_t j = 1; j < labels.size(); j++) {
+      std::string const &l = labels[j];
+      if (l == "d") { verif_assert_eq(f[j].v[0], c.x, "traj_ext.actual_value_column"); seen |= 1; }
+      else if (l == "r_d") { verif_assert_eq(f[j].v[0], c.xr, "traj_ext.extended_value_column"); seen |= 2; }
+      else if (l == "v_d") { verif_assert_eq(f[j].v[0], c.vf, "traj_ext.fdiff_velocity_column"); seen |= 4; }
+      else if (l == "vr_d") { verif_assert_eq(f[j].v[0], c.vr, "traj_ext.extended_velocity_column"); seen |= 8; }
+      else if (l == "Ep_d") { verif_assert_eq(f[j].v[0], c.Ep, "traj_ext.potential_energy_column"); seen |= 16; }
+      else if (l == "Ek_d") { verif_assert_eq(f[j].v[0], c.Ek, "traj_ext.kinetic_energy_column"); seen |= 32; }
+      else if (l == "fa_d") { verif_assert_eq(f[j].v[0], c.fa, "traj_ext.applied_force_column"); seen |= 64; }
+      else if (l == "E_h") seen |= 128;
+      else verif_assert(false, "traj_ext.unknown_label");
+    }
+    verif_assert(seen == 255, "traj_ext.every_column_announced_once");
+  }
+  verif_assert(nlines == (NS + F - 1) / F, "traj_ext.one_line_per_multiple");
+}
+
 // ---- running average and standard deviation ------------------------------------------------------------------------------------------
 extern "C" void h_c19_runave() {
   int L = verif_choice("runAveLength", 2) + 2;      // 2, 3
